@@ -74,7 +74,7 @@ def run(ctx):
         g = paths.guarded(ap, c, lambda fn, cc, pol: paths.rel(fn, cc, pol, subst=False) in (("0", "!=", "np"), ("0", "<", "np"), ("1", "<=", "np")))
         ctx.check(d2, g, key(ap, "np>0@" + ap.nodes[c]["callee"]), ap.where(c), "%s is reached with an empty pronunciation (np == 0): the word is accepted and dict2pid_add_word then dereferences a NULL phone array" % ap.nodes[c]["callee"])
     # unknown phone refused
-    un = [r for r in ap.find("Return") if paths.is_const(ap, ap.ch(r)[0], -1) and paths.guarded(ap, r, lambda fn, cc, pol: paths.rel(fn, cc, pol, subst=False) in (("-1", "==", "pron[np]"),))]
+    un = [r for r in ap.find("Return") if paths.is_const(ap, ap.ch(r)[0], -1) and paths.guarded(ap, r, lambda fn, cc, pol: paths.rel(fn, cc, pol, subst=False) in (("-1", "==", "pron[np]"),) or (pol and fn.k(fn.strip(cc)) == "Bin" and fn.nodes[fn.strip(cc)]["op"] == "==" and "-1 == bin_mdef_ciphone_id(" in fn.canon(cc, calls=True)))]
     ctx.check(d2, len(un) == 1, key(ap, "unknown-phone"), ap.where(ap.root), "an unknown phone is not refused")
 
     # ---- D3 growth / chain ---------------------------------------------------------------------------
@@ -120,10 +120,19 @@ def run(ctx):
     encond = [c for (s0, d0, c, pol) in da.cfg.cond_edges() if "hash_table_enter" in da.canon(c, subst=False)]
     ok = len(en) == 1 and [da.canon(x, subst=False) for x in da.args(en[0])][:2] == ["d->ht", "wordp->word"] and len(encond) >= 1 and paths.rel(da, encond[0], True, subst=False) is not None and "d->n_word" in paths.rel(da, encond[0], True, subst=False)
     ctx.check(d3, ok, key(da, "register"), da.where(da.root), "the word is not registered under its own spelling with its own id, or a duplicate is not detected by comparing the returned id")
-    inc = [s for s in st.get("d->n_word", [])]
-    newid = [s for s in paths.stores(da) if s["path"] == "newwid"]
-    ok = len(inc) == 1 and inc[0]["op"] == "++" and [da.canon(da.ch(r)[0], subst=False) for r in da.find("Return") if not paths.is_const(da, da.ch(r)[0], -1)] == ["newwid"] and len(newid) == 1 and da.canon(newid[0]["rhs"], subst=False) == "d->n_word++"
-    ctx.check(d3, ok, key(da, "count"), da.where(da.root), "the word count does not grow exactly once, on success, returning the new id")
+    # over the paths of the function (symx.run_paths): the count moves once exactly when an id is handed out,
+    # and the id is the count before the move
+    from .. import symx
+    okcount, nsucc = True, 0
+    for pt in symx.run_paths(da, P):
+        wr = [ev_ for ev_ in pt.events if ev_[0] == "store" and ev_[1] == "d->n_word"]
+        ret = lin.p_str(pt.ret) if pt.ret is not None else None
+        if ret == "-1":
+            okcount = okcount and not wr
+        else:
+            nsucc += 1
+            okcount = okcount and len(wr) == 1 and wr[0][2] == lin.p_add(lin.p_atom("d->n_word"), lin.p_const(1)) and ret == "d->n_word"
+    ctx.check(d3, okcount and nsucc >= 1, key(da, "count"), da.where(da.root), "the word count does not grow exactly once, on success, returning the new id")
     # pronunciation copy
     cp = da.calls("memcpy")
     al = [s for s in st.get("wordp->ciphone", []) if "malloc" in da.canon(s["rhs"], subst=False)]
@@ -155,7 +164,7 @@ def run(ctx):
         c = dc[0]
         a = [ap.canon(x, subst=False) for x in ap.args(c)]
         ctx.check(d6, a == ["d->dict", "word", "pron", "np"], key(ap, "args"), ap.where(c), "dict_add_word(%s)" % ", ".join(a))
-        fr = [r for r in ap.find("Return") if paths.is_const(ap, ap.ch(r)[0], -1) and paths.guarded(ap, r, lambda fn, cc, pol: pol and "dict_add_word(" in fn.canon(cc, subst=False))]
+        fr = [r for r in ap.find("Return") if paths.is_const(ap, ap.ch(r)[0], -1) and paths.guarded(ap, r, lambda fn, cc, pol: pol and ("dict_add_word(" in fn.canon(cc, subst=False) or "-1 == dict_add_word(" in fn.canon(cc, calls=True)))]
         ctx.check(d6, len(fr) == 1, key(ap, "propagate"), ap.where(c), "a refused addition is not reported as -1")
     for var in ("pron", "phonestr"):
         frees = [c for c in ap.calls("ckd_free") if ap.canon(ap.args(c)[0], subst=False) == var]
